@@ -56,6 +56,8 @@ def output_write_calls(B, fn):
 
 
 def run(ck):
+    if getattr(ck, 'depth', 0) >= 2:
+        return      # a shared run of a shared run: nothing of it is selected, and mutual sharing must end somewhere
     F = ck.facts
     B = F.bin
     table = load_table('fs_effects.json')
